@@ -5,7 +5,7 @@ CONSTANTS
   MaxLag = 1
   MaxResub = 1
   LiveLimit = 3
-  Modes = {"rec", "per"}
+  Modes = {"rec"}
   Kinds = {"fresh", "rlive", "rstream"}
   Pages = {1, 2}
   SSizes = {1, 2}
